@@ -9,6 +9,7 @@
 #include "Array.hpp"
 #include "StringStream.hpp"
 #include <memory>
+#include <algorithm>
 
 using namespace Qentem;
 using vf::u64;
@@ -34,6 +35,38 @@ struct Pool {
     T &at(unsigned i) { return *reinterpret_cast<T *>(raw[i % 3]); }
     void *slot(unsigned i) { return raw[i % 3]; }
 };
+
+// stream-like sinks for the templated stream-insertion operators
+//   operator<<(Stream_T &, const String &), operator<<(Stream_T &, const StringStream &), operator<<(Stream_T &, const StringView &)
+// Sink: a foreign stream type; DerivedStream: a StringStream subtype, so that the template (exact match on
+// the first argument) is selected instead of StringStream's own non-template overloads.
+template <typename C>
+struct Sink {
+    std::vector<C> v;
+    Sink &operator<<(const C *p) { if (p != nullptr) { while (*p != C{0}) { v.push_back(*p); ++p; } } return *this; }
+    Sink &operator<<(C c) { v.push_back(c); return *this; }
+};
+template <typename C>
+struct DerivedStream : StringStream<C> {};
+
+// "s<units>" of what `sink << src` delivers after a one-unit prefix (prefix disturbed -> PREFIXBAD)
+template <typename C, typename Src>
+static std::string stream_out(const Src &src, bool derived) {
+    std::vector<C> got;
+    if (derived) {
+        DerivedStream<C> d;
+        d += C{120};
+        d << src;
+        got.assign(d.First(), d.First() + d.Length());
+    } else {
+        Sink<C> k;
+        k << C{120};
+        k << src;
+        got = k.v;
+    }
+    if (got.empty() || got[0] != C{120}) return "PREFIXBAD";
+    return "s" + vf::fmt_units(got.data() + 1, got.size() - 1);
+}
 
 // ---------------------------------------------------------------- Array
 template <typename E> struct Elem;
@@ -82,6 +115,7 @@ static std::string run_array(const std::vector<std::string> &ops) {
         const std::string &nm = f[0];
         unsigned        i = f.size() > 1 ? num(f[1]) : 0, j = f.size() > 2 ? num(f[2]) : 0;
         Arr            &a = P.at(i);
+        std::string     out = "n";
         if (nm == "ANewSized") { a.~Arr(); new (P.slot(i)) Arr((SizeT)j, num(f[3]) != 0); }
         else if (nm == "ACopyCtor") { a.~Arr(); new (P.slot(i)) Arr(P.at(j)); }
         else if (nm == "AMoveCtor") { a.~Arr(); new (P.slot(i)) Arr(Memory::Move(P.at(j))); }
@@ -108,9 +142,18 @@ static std::string run_array(const std::vector<std::string> &ops) {
         else if (nm == "AExpect") a.Expect((SizeT)j);
         else if (nm == "ACompress") a.Compress();
         else if (nm == "ADrop") a.Drop((SizeT)j);
+        else if (nm == "ASwap") { unsigned k2 = num(f[3]); if (j < a.Size() && k2 < a.Size()) a.Swap(a.Storage()[j], a.Storage()[k2]); }
+        else if (nm == "AIter") {
+            std::string r1, r2;
+            const Arr  &ca = a;
+            for (const E &e : ca) { if (!r1.empty()) r1 += Elem<E>::sep; r1 += Elem<E>::fmt(e); }
+            for (E &e : a) { if (!r2.empty()) r2 += Elem<E>::sep; r2 += Elem<E>::fmt(e); }
+            if (r1 != r2) return "ITERBAD";
+            out = "s" + (r1.empty() ? std::string("-") : r1);
+        }
         else return "BADOP";
         if (step) res += ';';
-        res += "n";
+        res += out;
         for (unsigned k = 0; k < 3; k++) { res += '|'; res += dump_arr(P.at(k)); }
         ++step;
     }
@@ -182,6 +225,22 @@ static std::string run_string(const std::vector<std::string> &ops) {
         else if (nm == "SStepBack") s.StepBack((SizeT)num(f[2]));
         else if (nm == "SReverse") s.Reverse((SizeT)num(f[2]));
         else if (nm == "SInsertAt") s.InsertAt((C)num(f[2]), (SizeT)num(f[3]));
+        else if (nm == "SIter") {
+            std::vector<C> a1, a2;
+            const Str     &cs = s;
+            for (const C &c : cs) a1.push_back(c);
+            for (C &c : s) a2.push_back(c);
+            if (a1 != a2) return "ITERBAD";
+            out = "s" + vf::fmt_units(a1.data(), a1.size());
+        }
+        else if (nm == "SLast") {
+            C         *p  = s.Last();
+            const Str &cs = s;
+            if (cs.Last() != p) return "LASTBAD";
+            out = "s" + (p == nullptr ? std::string("-") : vf::fmt_units(p, 1));
+        }
+        else if (nm == "SIsEmpty") { bool e = s.IsEmpty(); if (s.IsNotEmpty() == e) return "NEQBAD"; out = e ? "b1" : "b0"; }
+        else if (nm == "SStreamOut") { out = stream_out<C>(s, (step & 1) != 0); }
         else return "BADOP";
         if (step) res += ';';
         res += out;
@@ -274,6 +333,15 @@ static std::string run_stream(const std::vector<std::string> &ops) {
             if (v.First() == nullptr || v.First()[v.Length()] != C{0}) out += '!';
         }
         else if (nm == "TInsertNull") { s.InsertNull(); if (s.Storage()[s.Length()] != C{0}) return "NULLBAD"; }
+        else if (nm == "TIter") {
+            std::vector<C> a1, a2;
+            const SS      &cs = s;
+            for (const C &c : cs) a1.push_back(c);
+            for (C &c : s) a2.push_back(c);
+            if (a1 != a2) return "ITERBAD";
+            out = "s" + vf::fmt_units(a1.data(), a1.size());
+        }
+        else if (nm == "TStreamOut") { out = stream_out<C>(s, (step & 1) != 0); }
         else return "BADOP";
         if (step) res += ';';
         res += out;
@@ -310,6 +378,16 @@ static std::string run_view(const std::vector<std::string> &ops) {
         else if (nm == "VEqObj") { const SV &q = P.at(num(f[2])); bool e = (s == q); if ((s != q) == e) return "NEQBAD"; out = e ? "b1" : "b0"; }
         else if (nm == "VEqCstr") { vf::ExactBuf<C> b(Z(2)); bool e = (s == (const C *)b.p); if ((s != (const C *)b.p) == e) return "NEQBAD"; out = e ? "b1" : "b0"; }
         else if (nm == "VIsEqual") { vf::ExactBuf<C> b(L(2)); out = s.IsEqual((const C *)b.p, (SizeT)b.n) ? "b1" : "b0"; }
+        else if (nm == "VIter") {
+            std::vector<C> a1;
+            const SV      &cs = s;
+            for (const C &c : cs) a1.push_back(c);
+            for (const C &c : s) a1.push_back(c); // StringView has the const pair only: twice the same walk
+            if (a1.size() % 2 != 0 || !std::equal(a1.begin(), a1.begin() + a1.size() / 2, a1.begin() + a1.size() / 2)) return "ITERBAD";
+            out = "s" + vf::fmt_units(a1.data(), a1.size() / 2);
+        }
+        else if (nm == "VStreamOut") { out = stream_out<C>(s, (step & 1) != 0); }
+        else if (nm == "VIsEmpty") { bool e = s.IsEmpty(); if (s.IsNotEmpty() == e) return "NEQBAD"; out = e ? "b1" : "b0"; }
         else return "BADOP";
         if (step) res += ';';
         res += out;
